@@ -16,7 +16,7 @@ from ..runner import Part
 PROPERTY = "C04"
 LEVEL = "fault_enumeration"
 RULE = ("one request per scenario against a scripted peer on the virtual clock; scenarios = every fault script over a "
-        "16-symbol alphabet up to depth retries+1 (exhaustive) x {udp-rtu, tcp} x keep-alive x (T, R) grid, TCP connect "
+        "16-symbol alphabet up to depth retries+1 (exhaustive) x {udp-rtu, tcp} x keep-alive x (T, R) grid, the public entry points (read_sensor / write_setting / send_command) and objects obtained from connect() without a family, requests around the transaction-id wrap, TCP connect "
         "outcome scripts, AA55 framing scripts, a silent request after a request under every fault script (at once and 0.4 T later), a stale corrupted datagram arriving while idle at 8 arrival phases, a stale first fragment arriving while idle followed 0 / 0.3 / 0.7 / 1 timeouts later by a silent request, every truncation length of the answer (0 bytes .. frame minus one; once or on every attempt) for the three framings, random deeper multi-request histories with random arrival phase of every peer send (thorough: the exhaustive part again with sends deferred by 2 / 5 loop iterations); distinct = distinct "
         "(transport, keep-alive, R, outcome, #tx, event-kind trace) tuples")
 ASSUMPTIONS = [
